@@ -3,11 +3,14 @@
    on every run) agree with the hand-written W3C tables the independent readers use —
    record kinds with their names and formal arguments in order, attribute keys,
    record-kind keys, time-valued arguments, subtype names.  A renamed constant, a
-   swapped pair or a dropped class breaks these proofs.  The end-to-end statement
-   (JsonSpec.read (encode_doc d) = content d) is stated and, so far, decided per run by
-   executing the extracted independent reader on the implementation's real output. *)
+   swapped pair or a dropped class breaks these proofs.  End to end at value level: what
+   the independent readers (JsonSpec.read_literal, XmlSpec.read_value / read_child) recover
+   from what the model of the library's writers emits for an attribute value is the strict
+   content of that value, for every value kind and both values of force_types.  The
+   container level (JsonSpec.read (encode_doc d) = content d) is stated and decided per run
+   by executing the extracted readers on the implementation's real output. *)
 From Coq Require Import String List Bool ZArith.
-From Prov Require Import Str Sexp Tables Spec TablesOK Nsm Values Record World Jtree Json JsonSpec.
+From Prov Require Import Str Sexp Tables Spec TablesOK Nsm NsmProofs Values Record World Jtree Json JsonProofs JsonSpec Xml XmlProofs XmlSpec SpecProofs.
 Import ListNotations.
 Open Scope string_scope.
 
@@ -41,7 +44,96 @@ Theorem C10_namespace_uris : prov_uri = spec_prov_uri /\ xsd_uri = spec_xsd_uri.
 Proof. exact uris_agree_with_spec. Qed.
 Print Assumptions C10_namespace_uris.
 
-(* end-to-end statement, not yet proved *)
+(* ---- end to end at value level: PROV-JSON *)
+Theorem C10_json_str : forall ft t s, JsonSpec.read_literal ft t (encode_value (VStr s)) = Some (content_value (VStr s)).
+Proof. exact spec_json_str. Qed.
+Theorem C10_json_bool : forall ft t b, JsonSpec.read_literal ft t (encode_value (VBool b)) = Some (content_value (VBool b)).
+Proof. exact spec_json_bool. Qed.
+Theorem C10_json_int : forall ft t z, Std t -> JsonSpec.read_literal ft t (encode_value (VInt z)) = Some (content_value (VInt z)).
+Proof. exact spec_json_int. Qed.
+Theorem C10_json_float : forall ft t r iv g, Std t -> lookup r ft = Some (Some (r, iv, g)) ->
+  JsonSpec.read_literal ft t (encode_value (VFloat r iv g)) = Some (content_value (VFloat r iv g)).
+Proof. exact spec_json_float. Qed.
+Theorem C10_json_time : forall ft t tm, Std t -> valid_dt tm = true ->
+  JsonSpec.read_literal ft t (encode_value (VTime tm)) = Some (content_value (VTime tm)).
+Proof. exact spec_json_time. Qed.
+Print Assumptions C10_json_time.
+Theorem C10_json_id : forall ft t u, Std t -> JsonSpec.read_literal ft t (encode_value (VId u)) = Some (content_value (VId u)).
+Proof. exact spec_json_id. Qed.
+Theorem C10_json_qn : forall ft t q, Std t ->
+  ns_prefix (qn_ns q) <> "" -> contains_char colon (ns_prefix (qn_ns q)) = false ->
+  lookup (ns_prefix (qn_ns q)) t = Some (ns_uri (qn_ns q)) ->
+  JsonSpec.read_literal ft t (encode_value (VQn q)) = Some (content_value (VQn q)).
+Proof. exact spec_json_qn. Qed.
+Theorem C10_json_lang : forall ft t lex c l,
+  JsonSpec.read_literal ft t (encode_value (VLit lex (Some (prov_qn "InternationalizedString")) (Some (String c l))))
+  = Some (content_value (VLit lex (Some (prov_qn "InternationalizedString")) (Some (String c l)))).
+Proof. exact spec_json_lang. Qed.
+Theorem C10_json_foreign : forall ft t lex d, Std t ->
+  ns_prefix (qn_ns d) <> "" -> contains_char colon (ns_prefix (qn_ns d)) = false ->
+  lookup (ns_prefix (qn_ns d)) t = Some (ns_uri (qn_ns d)) ->
+  starts_with spec_xsd_uri (qn_uri d) = false -> starts_with spec_prov_uri (qn_uri d) = false ->
+  JsonSpec.read_literal ft t (encode_value (VLit lex (Some d) None)) = Some (content_value (VLit lex (Some d) None)).
+Proof. exact spec_json_foreign. Qed.
+Print Assumptions C10_json_foreign.
+
+(* ---- end to end at value level: PROV-XML, both values of force_types *)
+Theorem C10_xml_str : forall ft scope fl a s, XStd scope -> is_qname_attr a = false ->
+  spec_xml_value ft scope fl a (VStr s) = Some (content_value (VStr s)).
+Proof. exact spec_xml_str. Qed.
+Theorem C10_xml_int : forall ft scope fl a z, XStd scope -> plain_attr a ->
+  spec_xml_value ft scope fl a (VInt z) = Some (content_value (VInt z)).
+Proof. exact spec_xml_int. Qed.
+Theorem C10_xml_bool : forall ft scope fl a b, XStd scope -> plain_attr a ->
+  spec_xml_value ft scope fl a (VBool b) = Some (content_value (VBool b)).
+Proof. exact spec_xml_bool. Qed.
+Theorem C10_xml_float : forall ft scope fl a r iv g, XStd scope -> plain_attr a ->
+  starts_with "prov:" r = false -> lookup r ft = Some (Some (r, iv, g)) ->
+  spec_xml_value ft scope fl a (VFloat r iv g) = Some (content_value (VFloat r iv g)).
+Proof. exact spec_xml_float. Qed.
+Theorem C10_xml_time : forall ft scope fl a tm, XStd scope -> plain_attr a -> valid_dt tm = true ->
+  spec_xml_value ft scope fl a (VTime tm) = Some (content_value (VTime tm)).
+Proof. exact spec_xml_time. Qed.
+Print Assumptions C10_xml_time.
+Theorem C10_xml_id : forall ft scope fl a u, XStd scope -> plain_attr a -> starts_with "prov:" u = false ->
+  spec_xml_value ft scope fl a (VId u) = Some (content_value (VId u)).
+Proof. exact spec_xml_id. Qed.
+Theorem C10_xml_qn : forall ft scope fl a q, XStd scope -> is_qname_attr a = false ->
+  ns_prefix (qn_ns q) <> "" -> contains_char colon (ns_prefix (qn_ns q)) = false ->
+  lookup (ns_prefix (qn_ns q)) scope = Some (ns_uri (qn_ns q)) ->
+  String.eqb (ns_uri (qn_ns q)) XmlSpec.xsd_ns = false ->
+  spec_xml_value ft scope fl a (VQn q) = Some (content_value (VQn q)).
+Proof. exact spec_xml_qn. Qed.
+Theorem C10_xml_lang : forall ft scope fl a lex c l, is_qname_attr a = false ->
+  spec_xml_value ft scope fl a (VLit lex (Some (prov_qn "InternationalizedString")) (Some (String c l)))
+  = Some (content_value (VLit lex (Some (prov_qn "InternationalizedString")) (Some (String c l)))).
+Proof. exact spec_xml_lang. Qed.
+Theorem C10_xml_ref : forall ft scope fl l formals q, XStd scope ->
+  is_qname_attr (prov_qn l) = true -> existsb (String.eqb l) formals = true ->
+  existsb (String.eqb l) spec_time_args = false ->
+  ns_prefix (qn_ns q) <> "" -> contains_char colon (ns_prefix (qn_ns q)) = false ->
+  lookup (ns_prefix (qn_ns q)) scope = Some (ns_uri (qn_ns q)) ->
+  String.eqb (ns_uri (qn_ns q)) XmlSpec.xsd_ns = false ->
+  read_child ft formals (child_of scope (prov_qn l) (xml_emit fl (prov_qn l) (VQn q)))
+  = Some (L [A (spec_prov_uri ++ l); content_value (VQn q)]).
+Proof. exact spec_xml_ref. Qed.
+Print Assumptions C10_xml_ref.
+Theorem C10_xml_formal_time : forall ft scope fl l formals tm,
+  is_qname_attr (prov_qn l) = false -> is_time_attr (prov_qn l) = true ->
+  existsb (String.eqb l) formals = true -> existsb (String.eqb l) spec_time_args = true ->
+  valid_dt tm = true ->
+  read_child ft formals (child_of scope (prov_qn l) (xml_emit fl (prov_qn l) (VTime tm)))
+  = Some (L [A (spec_prov_uri ++ l); content_value (VTime tm)]).
+Proof. exact spec_xml_formal_time. Qed.
+(* every formal argument of every kind falls under C10_xml_ref or C10_xml_formal_time *)
+Example C10_formals_covered :
+  forallb (fun k => forallb (fun l =>
+      if existsb (String.eqb l) spec_time_args
+      then negb (is_qname_attr (prov_qn l)) && is_time_attr (prov_qn l)
+      else is_qname_attr (prov_qn l)) (snd (fst k))) spec_kinds = true.
+Proof. exact spec_formals_covered. Qed.
+
+(* container-level end-to-end statement, not yet proved *)
 Definition C10_json_statement : Prop :=
   forall ft d, exists c, JsonSpec.read ft (encode_doc d) = Some c.
 
